@@ -68,6 +68,8 @@ class Stats:
         s.solver_s = 0.0
         s.fns_executed = {}
         s.models_used = {}
+        s.xchecked = s.xagree = s.xtimeout = 0      # obligations re-decided by cvc5
+        s.xdisagree = []
 
 
 class Engine:
@@ -356,10 +358,56 @@ class Engine:
             s.stats.discharged += 1
             return None
         neg = z3.BoolVal(True) if cond is False else z3.Not(cond)
-        if s._sat(neg):
+        sat = s._sat(neg)
+        s._cross_check(neg, sat, name)
+        if sat:
             return s.solver.model()
         s.stats.discharged += 1
         return None
+
+    XCHECK_EVERY = int(os.environ.get("MIRSYM_XCHECK_EVERY", "40"))
+    XCHECK_MAX = int(os.environ.get("MIRSYM_XCHECK_MAX", "12"))
+
+    def _cross_check(s, neg, z3_sat, name):
+        """second opinion on the deciding step: every XCHECK_EVERY-th solver-decided obligation
+        (at most XCHECK_MAX per harness) is exported as SMT-LIB2 and decided again by cvc5"""
+        st = s.stats
+        st.xseen = getattr(st, "xseen", 0) + 1
+        if s.XCHECK_EVERY <= 0 or st.xchecked >= s.XCHECK_MAX or (st.xseen % s.XCHECK_EVERY) != 1:
+            return
+        import subprocess, tempfile
+        s.solver.push()
+        try:
+            s.solver.add(neg)
+            text = "(set-logic ALL)\n" + s.solver.to_smt2()
+        finally:
+            s.solver.pop()
+        if re.search(r"bv[us]mul_no(?:ovfl|udfl)|bvsdiv_noovfl|bvneg_noovfl", text):
+            # z3-only overflow predicates: not SMT-LIB, cvc5 1.0 cannot parse them; try the next one
+            st.xseen -= 1
+            st.xskipped = getattr(st, "xskipped", 0) + 1
+            return
+        try:
+            with tempfile.NamedTemporaryFile("w", suffix=".smt2", delete=False) as fh:
+                fh.write(text)
+            p = subprocess.run(["cvc5", "--lang", "smt2", "--tlimit", "8000", fh.name], capture_output=True, text=True, timeout=20)
+            out = (p.stdout + p.stderr).strip().split("\n")
+            ans = out[0].strip() if out else ""
+        except Exception as e:
+            ans = "error: %s" % e
+        finally:
+            try:
+                os.unlink(fh.name)
+            except Exception:
+                pass
+        st.xchecked += 1
+        if ans in ("sat", "unsat"):
+            if (ans == "sat") == bool(z3_sat):
+                st.xagree += 1
+            else:
+                st.xdisagree.append("%s: z3 %s, cvc5 %s" % (name[:80], "sat" if z3_sat else "unsat", ans))
+        else:
+            st.xtimeout += 1
 
     def fresh_int(s, name, ty):
         w, _ = INT[ty]
